@@ -103,6 +103,18 @@ def f_main_flow_siblings(ctx, t):
                    and any(isinstance(a, ast.Assign) and src(a.targets[0]).endswith(".status") and src(a.value).endswith("WAITING") for st in i.body for a in ast.walk(st))
                    and any(isinstance(a, ast.Assign) and src(a.targets[0]).endswith(".heads") for st in i.body for a in ast.walk(st))]
         ok = bool(special)
+        if ok and name == "_abort_flow":
+            # the fresh head is put into the dispatch index by _flow_head_changed only for a flow that LISTENS: the status must be WAITING before the head is registered
+            # (an aborted flow is STOPPING at this point)
+            i0 = special[0]
+            st_line = min(a.lineno for st in i0.body for a in ast.walk(st) if isinstance(a, ast.Assign) and src(a.targets[0]).endswith(".status") and src(a.value).endswith("WAITING"))
+            regs_ = [c.lineno for st in i0.body for c in ast.walk(st) if isinstance(c, ast.Call) and src(c.func) == "_flow_head_changed"]
+            if regs_ and min(regs_) < st_line:
+                ok = False
+                ctx.check("C06.f.main-flow-siblings", SM, name, "status WAITING before the new head is registered", False,
+                          "the new head of the failed main flow is registered while the flow is still STOPPING: it is not put into the dispatch index, `match StartFlow(main)` is never "
+                          "found and the main flow is not started again", line=min(regs_))
+                continue
         ctx.check("C06.f.main-flow-siblings", SM, name, "the main flow goes back to WAITING with a fresh head", ok,
                   "an ended main flow is reset to WAITING (new head at the start)" if ok else
                   "%s has no special case for the main flow: a main flow that ends this way stays %s, process_events does not start it again, and every later event goes unanswered"
